@@ -3,6 +3,7 @@
 // line); every other name goes to the fallback (files under $TZDIR).
 #ifndef VERIF_HARNESS_ZONE_H_
 #define VERIF_HARNESS_ZONE_H_
+#include <atomic>
 #include <cstdlib>
 #include <fstream>
 #include <map>
@@ -36,7 +37,7 @@ inline std::map<std::string, std::string>& Table() {
   return *t;
 }
 
-extern long g_factory_calls;
+extern std::atomic<long> g_factory_calls;
 
 class MemSource : public cctz::ZoneInfoSource {
  public:
